@@ -18,8 +18,8 @@ The skeleton is taken from a NORMAL FORM of the code, so that behaviour-preservi
     conjunction / false disjunction is split into one literal per operand (so `if a: if b:` == `if a and b:`).
  N3 branch order: of two exclusive branches the always-terminating one comes first, otherwise the branch taken when the
     literal's expression is true.
- N4 a local bound exactly once to a side-effect-free read (a chain of attribute reads rooted in a name, none of whose
-    attribute names is assigned anywhere in the function) is substituted by that chain wherever it is used; a dead
+ N4 a local bound exactly once to a side-effect-free read (a chain of attribute reads rooted in a name that is itself
+    never rebound, none of whose attribute names is assigned anywhere in the function) is substituted by that chain wherever it is used; a dead
     `x = None` initialiser (directly followed by an `if` all of whose non-terminating branches assign x) does not count
     as a binding.  So hoisting `payload.revocation_reason` into a local, or reading `managed_object.value` into `key`
     before instead of after testing it, changes nothing.
@@ -27,7 +27,7 @@ The skeleton is taken from a NORMAL FORM of the code, so that behaviour-preservi
 
 Fails closed (raises, i.e. a broken translation) on anything outside what it understands: a `raise` that is not
 `raise exceptions.<Name>(...)` or a re-raise of the caught exception, statements after a point where every branch has
-terminated, while / with / match / nested def / try-else / try-finally / for-else containing control flow, a call of
+terminated, while / async / match / nested def / try-else / try-finally / for-else containing control flow, a call of
 interest (lookup, crypto, delete, commit) inside a conditional or boolean expression, a missing handler.
 """
 import ast
@@ -36,8 +36,9 @@ from pathlib import Path
 
 HANDLERS = ['_process_activate', '_process_revoke', '_process_destroy', '_process_encrypt', '_process_decrypt',
             '_process_signature_verify', '_process_mac', '_process_sign', '_process_derive_key', '_process_get',
-            '_get_object_with_access_controls', '_get_object_type']
-INTEREST = ('_get_object_with_access_controls', 'delete', 'commit', '_get_object_type', '_is_allowed_by_operation_policy', 'one')
+            '_get_object_with_access_controls', '_get_object_type', '_process_batch']
+INTEREST = ('_get_object_with_access_controls', 'delete', 'commit', 'rollback', '_get_object_type', '_is_allowed_by_operation_policy', 'one',
+            '_process_operation')
 NEG_OPS = {ast.NotEq: ast.Eq, ast.NotIn: ast.In, ast.IsNot: ast.Is}
 
 
@@ -202,6 +203,10 @@ def single_bindings(func):
             continue
         if chain[0] == name:
             continue
+        # the root of the chain must denote the same object at the binding and at every use: a parameter that is
+        # never rebound, a name the function never binds (module level), or a local bound exactly once
+        if len(bound.get(chain[0], [])) > (0 if chain[0] in params else 1):
+            continue
         table[name] = values[0]
     # resolve chains through other substitutable locals (payload.a -> x; x.b -> y), innermost first, no cycles
     for _ in range(len(table) + 1):
@@ -250,8 +255,8 @@ class Skeleton:
                     found.append((n.lineno, n.col_offset, 'crypto', f.attr))
                 elif f.attr == 'delete':
                     found.append((n.lineno, n.col_offset, 'delete', norm(self.s(f.value))[:60]))
-                elif f.attr == 'commit':
-                    found.append((n.lineno, n.col_offset, 'commit', ''))
+                elif f.attr in ('commit', 'rollback'):
+                    found.append((n.lineno, n.col_offset, f.attr, ''))
                 else:
                     found.append((n.lineno, n.col_offset, 'call', f.attr))
         for _, _, kind, text in sorted(found):
@@ -322,6 +327,12 @@ class Skeleton:
             self.expr_events(st.iter, path)
             self.block(st.body, path + [('<for %s in %s>' % (norm(st.target), norm(self.s(st.iter))), True)])
             return False
+        if isinstance(st, ast.With):
+            # a `with` block is walked as a plain block under a marker (the session context manager of _process_batch)
+            for it in st.items:
+                self.expr_events(it.context_expr, path)
+            tag = '<with %s>' % ', '.join(norm(self.s(it.context_expr)) for it in st.items)
+            return self.block(st.body, path + [(tag, True)])
         if isinstance(st, ast.Try):
             if st.orelse or st.finalbody:
                 raise ValueError('%s: try/else/finally' % self.fname)
